@@ -123,6 +123,19 @@ def tree_spec(draw, tier):
             # free entries that still carry the parent reference they had: an offset inside free space, a table that is gone
             "free_stale_parent": draw(st.sampled_from([None, None, [t, 11], [t, 0x7FF0], [ntables + 3, 10], [0xFFFF, 0xFFFFFFFF]])),
         }
+    for t in range(1, ntables + 1):
+        if any(e["type"] == "node" for e in entries) and draw(st.integers(0, 3)) == 0:
+            # a table filled to its last byte (no free tail) whose last live entry is one of the smallest the format has: a Bool or
+            # an empty inline String / Array under a key of 1..4 bytes, without spare room (27..30 bytes)
+            nodes = [e for e in entries if e["type"] == "node"]
+            parent = draw(st.sampled_from(nodes))["id"]  # (the top level holds nodes only)
+            taken = {e["key"] for e in entries if e["parent"] == parent}
+            key = next(k for k in (c * n for n in (draw(st.integers(1, 4)), 5) for c in "~^|@") if k not in taken)
+            typ, val = draw(st.sampled_from([("bool", True), ("bool", False), ("string", ""), ("array", "")]))
+            entries.append({"id": counter[0], "parent": parent, "key": key, "type": typ, "value": val, "table": t, "fo": False, "flag2": False,
+                            "slack": 0, "ins": 1, "depth": 1, "tight": True})
+            counter[0] += 1
+            tables[str(t)]["exact_fill"] = True
     s1 = draw(st.integers(0, 65535))
     s2 = draw(st.integers(0, 65535).filter(lambda x: x != s1))
     spec = {
@@ -133,6 +146,8 @@ def tree_spec(draw, tier):
         "gap": draw(st.sampled_from([0, 0, 1])), "start_pos": draw(st.sampled_from([None, None, None, 4, 0x1000, "end"])),
         # file objects at absolute offsets around and beyond 4 GiB (sparse in-memory file)
         "fo_far": draw(st.sampled_from([0, 0, 0, "tail", "tail", 0xFFFFF000, 1 << 32, (1 << 32) + 0x5000, 0x2_8000_0000])),
+        # the caller's side: a file object with read / seek / tell only; entries that outlive the HyperVFile object they came from
+        "via_minimal": draw(st.sampled_from([None, None, None, "plain", "seek-none"])), "drop_root": draw(st.integers(0, 5)) == 0,
     }
     if draw(st.integers(0, 2)) == 0:
         # key-table indices need not be 1..N: gaps and high indices
@@ -240,6 +255,8 @@ def check(spec) -> Outcome:
     out.nontrivial = meta["n_key_tables"] >= 2 and nfo >= 1 and len(types - {"node"}) >= 3
     out.cls(f"tables={meta['n_key_tables']}", "file-objects" if nfo else "inline-only", f"bad-other={spec['headers']['bad_other'] or 'none'}",
             "chained-object-table" if spec["object_table"]["chain_at"] is not None else "single-object-table")
+    if any(t.get("exact_fill") for t in spec["tables"].values()):
+        out.cls("exactly-full-table")
     if any(t.get("stale") for t in spec["tables"].values()):
         out.cls("stale-tables")
     if sorted(int(k) for k in spec["tables"]) != list(range(1, len(spec["tables"]) + 1)):
@@ -258,11 +275,16 @@ def check(spec) -> Outcome:
         if unpadded:
             out.cls("unpadded-tail")
         out.cls("file-objects-beyond-4GiB" if any(o >= 1 << 32 for o, _v in meta["far_objects"]) else "file-objects-far")
+    elif spec.get("via_minimal"):
+        from hv.core import MinimalHandle
+
+        fh = MinimalHandle(data, seek_returns_none=spec["via_minimal"] == "seek-none")
+        out.cls("via-minimal-handle")
     else:
         fh = io.BytesIO(data)
     if spec.get("start_pos"):
         # the caller has used the handle before (sniffed a magic, hashed the file): every structure sits at an absolute offset
-        fh.seek(0, 2) if spec["start_pos"] == "end" else fh.seek(min(spec["start_pos"], len(data)))
+        fh.seek(0, 2) if spec["start_pos"] == "end" else fh.seek(min(spec["start_pos"], len(data)), 0)
         out.cls("handle-not-at-start")
     hf, err = lib(HyperVFile, fh)
     if err:
@@ -303,6 +325,18 @@ def check(spec) -> Outcome:
         return out
     # per-leaf access through __getitem__ chains
     by_id = {e["id"]: e for e in spec["entries"]}
+    tops = None
+    if spec.get("drop_root"):
+        # the caller keeps the top-level entries and lets go of the HyperVFile object (a helper that returns hf["configuration"])
+        import gc
+
+        tops, err = lib(lambda: {e["key"]: hf[e["key"]] for e in spec["entries"] if e["parent"] is None})
+        if err:
+            out.fail(err.sig("hyperv-getitem"), f"hf[top-level key] raised {err.describe()}")
+            return out
+        hf = None
+        gc.collect(1)
+        out.cls("root-object-dropped")
     for e in spec["entries"][:12]:
         if e["type"] == "node":
             continue
@@ -314,8 +348,8 @@ def check(spec) -> Outcome:
         path.reverse()
 
         def walk():
-            node = hf
-            for k in path:
+            node = hf if tops is None else tops[path[0]]
+            for k in path if tops is None else path[1:]:
                 node = node[k]
             return node.value
 
